@@ -227,12 +227,17 @@ def main():
                     discharged.append("audit:leanchecker")
                 else:
                     broken.append({"obligation": "audit:leanchecker", "detail": out[-600:]})
+    stale_units = [u for u in units if not gen_status.get(u, {}).get("ok")]
     if build_ok:
         for name, axs in sorted(theorems.items()):
             ob = f"theorem:{name}"
             obligations.append(ob)
             bad = [x for x in axs if x not in ALLOWED_AXIOMS]
-            if bad:
+            if stale_units:
+                # the translator refused the current source: the last good translation is still in place, so the theorem was
+                # re-checked about the previous code, not this one -- not discharged (translate:<unit> is already in `broken`)
+                ctx.notes.append(f"{ob}: checked against the previous translation of {stale_units} only") if len(ctx.notes) < 3 else None
+            elif bad:
                 broken.append({"obligation": ob, "detail": f"depends on axioms {bad}"})
             else:
                 discharged.append(ob)
